@@ -65,7 +65,7 @@ def required_cells(tier):
 
 
 def cases(tier, seed):
-    nb, nc = (24, 48) if tier == "quick" else (200, 480)
+    nb, nc = (32, 96) if tier == "quick" else (200, 600)
     out = [{"kind": "bath", "seed": seed, "idx": i, "tier": tier}
            for i in range(nb)]
     out += [{"kind": "cov", "seed": seed, "idx": i, "tier": tier}
